@@ -150,18 +150,18 @@ def detect_variant(rig):
         rig.report_trace(res, evs, allcmds, "witness histories")
         ctx.add(traces_validated_against_impl=1, trace_events_validated=len(evs))
         return
-    # some spot differs from the original code: decide each repair separately
+    # some spot differs from the original code: decide the repairs one after the other ("alloc-base" first: it
+    # changes the initial table and therefore every history)
     fix = set()
     for f in FIXES:
-        r0, e0 = rig.run_and_validate(WITNESS[f], 6, 1, 1, -3, "witness " + f, fix=set(), report=False)
-        if r0 is None: continue
-        if r0["accepted"]:
+        r0, e0 = rig.run_and_validate(WITNESS[f], 6, 1, 1, -3, "witness " + f, fix=fix, report=False)
+        if r0 is None or r0["accepted"]:
             continue
-        r1, e1 = rig.run_and_validate(WITNESS[f], 6, 1, 1, -3, "witness " + f, fix={f}, report=False)
-        if r1["accepted"]:
+        r1, e1 = rig.run_and_validate(WITNESS[f], 6, 1, 1, -3, "witness " + f, fix=fix | {f}, report=False)
+        if r1 is not None and r1["accepted"]:
             fix.add(f)
         else:
-            rig.fix = set()
+            rig.fix = fix
             rig.report_trace(r0, e0, WITNESS[f], "witness " + f)
     rig.fix = fix
     ctx.log("tree follows the repaired variant for: %s" % sorted(fix))
@@ -300,6 +300,70 @@ def replay_behaviours(rig, base, nbeh, depth, label):
     ctx.log("%s: %d behaviours / %d calls replayed on the real ring, %d diverging behaviours" % (label, b + 1, nsteps, nbad))
     if states: ctx.add(samples=[{"call": cmd_of_ev(states[-1]["ev"]), "expected": states[-1]["ev"]}])
 
+# ---------------------------------------------------------------- stage 2b: EVERY edge of the state graph on the real ring
+def replay_edges(rig, base, label, workers=4):
+    """Record=2 makes every (pre-state, call, post-state) of the exploration one distinct TLC state, printed once.
+    The real structures are put into the pre-state (a state some other compared edge produced, or the initial one),
+    the call is made, and results + projected post-state are compared."""
+    ctx = rig.ctx
+    k = cfg_consts(base)
+    txt = open(os.path.join(SPEC_DIR, base)).read()
+    r0s = re.search(r"(?m)^  R0s = \{(.*)\}$", txt).group(1).split(",")
+    if len(r0s) != 1: raise common.Infra("edge replay needs a single initial round")
+    r0 = int(r0s[0]); mod = k["mod"]
+    cfg = write_cfg("_c19_edges.cfg", base, {"Fix": tla_set(rig.fix)})
+    r = common.tlc("MC_RingBuf", cfg=cfg, workers=workers, timeout=3000, xmx="12g")
+    if r.rc != 0: raise common.Infra("edge enumeration failed: %s\n%s" % (r.violation, r.out[-2000:]))
+    edges = [s for s in common.tlc_printed_json(r.out) if s["ev"]]
+    if len(edges) != r.distinct - 1:
+        raise common.Infra("edge emission lost lines: %d printed vs %d distinct states" % (len(edges), r.distinct - 1))
+    ctx.tlc_stats(r, "MC_RingBuf/%s (states = edges of the history graph)" % base)
+    niov = k["size"] // k["minb"] + 3
+    rel = lambda m: (m - r0) % mod
+    def rp3(p): return "%d %d %d" % ((p["idx"], p["off"], rel(p["rnd"])) if p["idx"] >= 0 else (-1, -1, 0))
+    def key(st, rpos, got, wcount):
+        return json.dumps([st["wpos"], st["idx"], st["imax"], st["rnd"], st["frag"], st["full"], st["iov"], st["mem"],
+                           [rp_model(rpos[str(i)]) for i in range(k["nr"])], [got["b"], got["n"]], wcount])
+    posts = set()
+    lines = ["new %d %d %d %d %d" % (k["size"], k["minb"], k["nr"], niov, r0 - mod)]
+    meta = [None]
+    for e in edges:
+        pre = e["ev"]["pre"]
+        posts.add(key(e["st"], e["rpos"], e["aux"]["got"], e["aux"]["wcount"]))
+        lines.append("poke %d %d %d %d %d %d %d %d %d %d %s %d %s %d %s" % (
+            pre["wpos"], pre["idx"], pre["imax"], rel(pre["rnd"]), pre["frag"], pre["full"], pre["got"]["b"], pre["got"]["n"],
+            pre["wcount"], len(pre["iov"]), " ".join("%d %d" % (b, l) for b, l in pre["iov"]), len(pre["mem"]),
+            " ".join(map(str, pre["mem"])), k["nr"], " ".join(rp3(pre["rpos"][str(i)]) for i in range(k["nr"]))))
+        meta.append(None)
+        lines.append(cmd_of_ev(e["ev"])); meta.append(e)
+    # induction base: every pre-state is the initial state or the post-state of a compared edge
+    init_like = 0; orphan = 0
+    for e in edges:
+        pre = e["ev"]["pre"]
+        kk = key({x: pre[x] for x in ("wpos", "idx", "imax", "rnd", "frag", "full", "iov", "mem")}, pre["rpos"], pre["got"], pre["wcount"])
+        if kk not in posts:
+            if pre["wcount"] == 0 and pre["wpos"] == 0 and pre["idx"] == 0 and pre["full"] == 0: init_like += 1
+            else: orphan += 1
+    if orphan: raise common.Infra("%d edge pre-states are not post-states of any edge" % orphan)
+    res = common.batch_run(rig.exe, lines, timeout=1800, env=rig.env)
+    nbad = 0; n = 0
+    for i, (ln, e, a) in enumerate(zip(lines, meta, res)):
+        if isinstance(a, dict):
+            c = a["crash"]; nbad += 1
+            if nbad <= 5: ctx.fail("ring:%s:%s" % (c[0], c[1]), "%s: %s\n%s" % (label, c[3], a["raw"]), {"commands": lines[max(1, i - 1):i + 1]})
+            continue
+        if e is None: continue
+        diff = compare_step(e, json.loads(a), r0, mod, k["nr"]); n += 1
+        if diff:
+            nbad += 1
+            if nbad <= 5:
+                for f in diff:
+                    ctx.fail("conformance:%s:%s" % (e["ev"]["op"], f), "%s: the real call differs from the specification (Fix=%s) in %s\n"
+                             "pre-state+call: %s\n%s\nTLC expects: %s\nreal: %s" % (label, sorted(rig.fix), f, lines[i - 1][:600], ln,
+                             json.dumps({x: e[x] for x in ("st", "rpos")})[:1200], a[:1500]), {"commands": [lines[0], lines[i - 1], ln]})
+    ctx.add(evaluations=n, spec_edges_replayed=n, traces_validated_against_impl=n)
+    ctx.log("%s: %d edges of the state graph replayed on the real ring, %d differ" % (label, n, nbad))
+
 # ---------------------------------------------------------------- stage 3: random histories of the real ring, validated by TLC
 def random_histories(rig, plan):
     ctx = rig.ctx
@@ -316,16 +380,20 @@ def random_histories(rig, plan):
 def run(ctx):
     ctx.level = "model_checking"
     rig = Rig(ctx)
+    ctx.log("driver built from %s" % common.REPO)
     detect_variant(rig)
     ctx.cov["spec_variant_followed_by_tree"] = sorted(rig.fix)
+    ctx.log("witness histories done; classes confirmed on the real ring: %s" % sorted(rig.confirmed))
     ok = model_check(rig, "MC_RingBuf.cfg")
+    ctx.log("exhaustive exploration done")
     if not ctx.quick and ok:
         for base in ("MC_RingBuf_tA.cfg", "MC_RingBuf_tB.cfg"):
             ok = model_check(rig, base, timeout=3000) and ok
     if ctx.quick:
-        replay_behaviours(rig, "MC_RingBuf_sim.cfg", 600, 60, "simulated behaviours")
-        random_histories(rig, [(6, 1, 2, 4000, 3, 60), (8, 2, 2, 4000, 4, 80), (12, 2, 3, 3000, 5, 45)])
+        replay_behaviours(rig, "MC_RingBuf_sim.cfg", 250, 60, "simulated behaviours")
+        random_histories(rig, [(6, 1, 2, 4000, 3, 60), (8, 2, 2, 3500, 4, 80), (12, 2, 3, 2500, 5, 45)])
     else:
+        replay_edges(rig, "MC_RingBuf_edges.cfg", "every edge (ring 6, <= 5 bytes written, round counter from RoundMod-2)")
         replay_behaviours(rig, "MC_RingBuf_sim.cfg", 6000, 80, "simulated behaviours")
         replay_behaviours(rig, "MC_RingBuf_sim8.cfg", 3000, 80, "simulated behaviours (ring 8 / min block 2)")
         plan = []
